@@ -130,7 +130,7 @@ pub fn check(case: &C15Case, st: &mut Stats) -> Verdict {
     let expected = expected_claims(&tree, &last.paths, spec.holder);
     for (what, pres) in [("direct", &direct), ("chained", &cur)] {
         let got = must_ok(&format!("SDJWTVerifier::new({})", what), sut::verify(pres, spec.fmt, spec.alg, final_kb.map(|k| (k.aud.as_str(), k.nonce.as_str()))))?;
-        if got != expected {
+        if crate::exact::differs(&got, &expected) {
             return Err(Failure::new(
                 format!("mismatch:{}", what),
                 format!("verified claims of the {} presentation differ\n  expected: {}\n  got:      {}\n  presentation: {}", what, expected, got, sut::clip(pres, 3000)),
